@@ -628,7 +628,8 @@ def gen_update(ctx, op):
             leaf = ctx.new_num(m) if ctx.b(0.6) else ctx.new_axis(m)
             us.append(("leaf", leaf, True))
         coord_units.append(ctx.perm(us))
-    upd_units = ctx.perm(ctx.subset(pool + extra, 0.55))
+    upd_only = [("leaf", ctx.new_axis(), False)] if ctx.b(0.08) else []  # axis in the updates only
+    upd_units = ctx.perm(ctx.subset(pool + extra, 0.55) + upd_only)
     # output: same bracketed axes in the same order; un-bracketed target axes permuted
     out_vec = [u for u in tgt_vec if not (_unit_len1(ctx, u) and ctx.b(0.3))]
     if ctx.b(0.5):
@@ -659,7 +660,7 @@ def gen_preserve(ctx, op):
     br = []
     for _ in range(K):
         r = ctx.draw(st.integers(0, 11))
-        if r == 0 and op not in ("sort", "argsort"):
+        if r == 0 and op not in ("sort", "argsort", "roll"):
             br.append(("fam", ctx.new_family(), True, "plain"))
         else:
             br.append(("leaf", ctx.new_axis(), True))
